@@ -1,7 +1,7 @@
 """Statement execution, loops (invariants), contract application and the per-function driver."""
 import ast
 import z3
-from .core import Val, Raise, State, Unsupported, fresh_const, exc_matches
+from .core import Val, Raise, State, Unsupported, fresh_const, bound_var, exc_matches
 from .sorts import sort_of, SExp, SList, Tree, I, sv
 from . import models, source
 
@@ -370,7 +370,7 @@ class StmtMixin:
         if itername:
             pos = h.env[itername].py[1]
         else:
-            pos = fresh_const("_i", I)
+            pos = bound_var("_i", I)
             h.conds.append(z3.And(pos >= 0, pos <= n_len))
         envh = {"_i": Val(pos, "int"), "_seq": seq}
         h = self.assume_invariants(h, spec, envh)
